@@ -22,7 +22,7 @@
                          productions, in order
      hyps_ok ug start p  fact_ok for p + no suffix symbol is a terminal + start is a user symbol *)
 From Coq Require Import ZArith List Bool.
-From AK Require Import LLP.Build C01.Spec C01.Run C01.Lemmas C01.LemmasFact C01.LemmasTable C01.LemmasTop.
+From AK Require Import LLP.Build C01.Spec C01.Run C01.Lemmas C01.LemmasFact C01.LemmasTable C01.FactSmart4 C01.LemmasTop.
 Import ListNotations.
 Open Scope Z_scope.
 
@@ -103,16 +103,42 @@ Proof.
 Qed.
 Print Assumptions parse_sound_build_nonvacuous.
 
-(* ---- the factorization ---- *)
-Definition factorize_ok_statement : Prop := forall ug terminals smart g sfxs,
+(* ---- the factorization: the validator accepts whatever the constructor produces ---- *)
+(* all user grammars, both smart_factorization settings.  [factorize] includes the code's
+   assertions (no '__' in a production key or inside a production, no symbol produced twice);
+   when one fails the result is Err AssertErr and nothing is claimed *)
+Theorem factorize_ok : forall ug terminals smart g sfxs,
   factorize ug terminals smart = Ok (g, sfxs) -> fact_ok ug g sfxs = true.
+Proof. exact factorize_ok_l. Qed.
+Print Assumptions factorize_ok.
+
+(* the check evaluated on every grammar of the correspondence run cannot fail *)
+Theorem build_hyps_ok : forall ug terminals smart start p,
+  build ug terminals smart start = Ok p -> In start (map fst ug) -> hyps_ok ug start p = true.
+Proof. exact build_hyps_ok_l. Qed.
+Print Assumptions build_hyps_ok.
+
+(* ---- C01 for every parser the constructor model accepts: no validator hypothesis left ---- *)
+Theorem parse_sound_constructor : forall ug terminals smart start p k body e t,
+  build ug terminals smart start = Ok p ->
+  (forall b, In b body -> tname b <> END_TOKEN) ->
+  p_parse p k (body ++ [e]) = Ok t ->
+  tree_name t = start /\ valid_tree ug t /\ no_helper (p_sfxs p) t /\
+  kinds_ok (fun s => mem s (p_terminals p)) t /\ leaves t = map tok_pair body.
+Proof. exact parse_sound_constructor_l. Qed.
+Print Assumptions parse_sound_constructor.
 
 (* a user production that mentions a helper name (A -> a b | a c | d A__S00) used to be accepted
    and 'd b' was parsed to A(d b), which the user did not write; since /repo 6e22989 the
-   constructor asserts that no symbol inside a production contains '__' *)
+   constructor asserts that no symbol inside a production, and not the start symbol, contains '__' *)
 Definition xAS00 := [65; 95; 95; 83; 48; 48].
 Definition bad_ug : ugrammar := [(xA, [[xa; xb]; [xa; xc]; [xd; xAS00]])].
 Example reserved_name_in_production_rejected : forall smart,
   factorize bad_ug [xa; xb; xc; xd] smart = Err AssertErr.
 Proof. intros [|]; reflexivity. Qed.
 Print Assumptions reserved_name_in_production_rejected.
+
+Example reserved_name_as_start_rejected : forall smart,
+  build ex_ug ex_terms smart xAS00 = Err AssertErr.
+Proof. intros [|]; reflexivity. Qed.
+Print Assumptions reserved_name_as_start_rejected.
